@@ -262,7 +262,7 @@ func (e *env) runStep(hs *historyState, st *step, f *faultPlan, md *model) strin
 		preRegions[id] = md.regionCount(id)
 	}
 	st.Before = stateName(prev[st.ID])
-	if st.Cmd == "reload" {
+	if isReload(st.Cmd) {
 		f = nil // a reload only reads the store records
 	}
 	st.Fault = f
@@ -329,7 +329,7 @@ func (e *env) judge(hs *historyState, st *step, f *faultPlan, md *model, prev, c
 	// of an injected fault legitimately change here (not judged); the model's placements become
 	// what the stored region records say (a region save may have been failed by a fault)
 	adopted := map[uint64]bool{}
-	if st.Cmd == "reload" {
+	if isReload(st.Cmd) {
 		if !ok {
 			return "lost"
 		}
@@ -749,3 +749,6 @@ func panicSite(stack string) string {
 	}
 	return "unknown-site"
 }
+
+// isReload: commands after which pd serves what the storage holds.
+func isReload(cmd string) bool { return cmd == "reload" || cmd == "restart" }
